@@ -5,7 +5,7 @@ from __future__ import annotations
 import ast
 
 from ..astutil import inside, norm_cmp
-from ..tutil import normalise, np_call
+from ..tutil import map_term, normalise, np_call
 from ..cfg import CFG
 from ..core import callee_is, AnalysisError, const_value, walk_own
 from ..defuse import DefUse, Terms, show, walk_term
@@ -823,9 +823,14 @@ def _best_feature_loop(ctx, f):
     live = [v for v in slots.values() if v is not None]
     same = len({frozenset(v[3]) for v in live}) == 1
     _n, cnt_node, cnt_val, conds = slots["cnt"]
+    def as_item(t):
+        # rec[0] on a tuple record is the record's component 0
+        return map_term(t, lambda x: ("item", x[1], x[2][1])
+                        if x[0] == "sub" and x[2][0] == "const"
+                        and type(x[2][1]) is int else x)
     better = [c for c in conds if c[0] in ("lt", "le")
-              and no_uids(c[1]) == no_uids(comps["cnt"])
-              and c[2] == cnt_val]
+              and no_uids(as_item(c[1])) == no_uids(as_item(comps["cnt"]))
+              and as_item(c[2]) == as_item(cnt_val)]
     ok = same and len(conds) == 1 and len(better) == 1
     ok_desc = slots["desc"][2] == loop_elem
     ctx.check(ok and ok_desc, "C07a-best-updated-together", f,
